@@ -106,6 +106,8 @@ def cli_runs(ck, thorough):
     for i, extra in enumerate(combos):
         out = os.path.join(d, "out_%d.pkl.gz" % i)
         args = ["run", "-i", inp, "-o", out, "--seed", str(100 + i), "--num-chains", "1", "--print-freq", "100000"] + extra
+        if i % 2 == 1:
+            args += ["-c", inp + ".clusters.tsv"]       # pre-clustered input (integer cluster ids with gaps, not starting at 0)
         res = runner.invoke(main, args)
         ck.evaluations += 1
         rep = {"argv": args}
